@@ -8,6 +8,7 @@
 //!      as an uninterrupted run.
 //!  C10 corruption: a pack with one byte changed / truncated / emptied (under the same key) makes a
 //!      fresh `reload()` fail, or else every read is Err or the ORIGINAL value — never another value.
+use super::FailureClasses;
 use crate::Report;
 use melda::adapter::Adapter;
 use melda::memoryadapter::MemoryAdapter;
@@ -317,10 +318,11 @@ pub fn run(thorough: bool, _seed: u64) -> Report {
         &format!(
             "for every string s of length <= {} over {{ {{ }} \" \\ a , é }}: 10 groups of 1..3 values out of {{\"k\":s}}, {{s:1}}, {{\"a\":{{\"b\":[s,{{\"c\":s}}]}}}} and 6 number objects (ints, negative, 1.5, 1e300, -2.5e-7); per group: durability (1 and 2 pack rounds, fresh reload/refresh), failed-write retry, and corruption of the pack at every {} byte position (4 replacement bytes), every truncation length, emptied",
             maxlen,
-            if step == 1 { "".to_string() } else { format!("{}rd", step) }
+            if step == 1 { "single".to_string() } else { format!("{}rd", step) }
         ),
         "exhaustive over strings x groups; one case per group and check kind (durability / failed-write / each damaged copy); non-trivial = group with a string containing a brace, quote or backslash, or more than one value",
     );
+    let mut classes = FailureClasses::new(2);
     for (i, s) in strings(maxlen).iter().enumerate() {
         for (g, vals) in groups(i, s).iter().enumerate() {
             let nontrivial = vals.len() > 1 || s.chars().any(|c| "{}\"\\".contains(c));
@@ -329,7 +331,7 @@ pub fn run(thorough: bool, _seed: u64) -> Report {
             let reference = match check_durability(vals) {
                 Ok(x) => Some(x),
                 Err(w) => {
-                    rep.fail(&format!("{}durability:{}", prefix(vals), key), json!({"kind": "durability", "values": vals}), &w);
+                    classes.fail(&mut rep, &format!("{}durability", prefix(vals)), &format!("{}durability:{}", prefix(vals), key), json!({"kind": "durability", "values": vals}), &w);
                     None
                 }
             };
@@ -351,12 +353,14 @@ pub fn run(thorough: bool, _seed: u64) -> Report {
             };
             rep.case(&format!("fault:{}", key), nontrivial);
             if let Err(w) = check_failed_write(vals, &bytes) {
-                rep.fail(&format!("other:failed-write:{}", key), json!({"kind": "failed-write", "values": vals}), &w);
+                classes.fail(&mut rep, "other:failed-write", &format!("other:failed-write:{}", key), json!({"kind": "failed-write", "values": vals}), &w);
             }
             for (tag, d) in damaged_variants(&bytes, step) {
                 rep.case(&format!("dmg:{}:{}", key, tag), nontrivial);
                 if let Err(w) = check_corrupted(vals, &p, &d) {
-                    rep.fail(
+                    classes.fail(
+                        &mut rep,
+                        "other:corrupted",
                         &format!("other:corrupted:{}:{}", key, tag),
                         json!({"kind": "corrupted", "values": vals, "pack_id": p, "damaged": d}),
                         &w,
@@ -365,6 +369,7 @@ pub fn run(thorough: bool, _seed: u64) -> Report {
             }
         }
     }
+    classes.summary("pack");
     rep
 }
 
